@@ -220,12 +220,151 @@ Proof.
     destruct (ansF cf d (annot L1) j) as [z|]; cbn [absEntry c_recv c_ans c_val].
     - rewrite (proj2 (Nat.eqb_neq (c_my cf) d) Hpd). cbn [negb andb].
       destruct (v_vArecv (q_v (qset_compl q1 (upd (q_compl q1) j (mkC true true z))))); cbn [andb].
-      + destruct (check_complaint _ j z) as [[|]|]; cbn; split; intros [E|[]]; try inversion E; try contradiction.
-        all: try (apply Hjd; symmetry; assumption).
+      + destruct (check_complaint _ j z) as [[|]|]; cbn; split; intro Hin; try contradiction.
+        all: destruct Hin as [E|[]]; inversion E. all: apply Hjd; symmetry; assumption.
       + cbn. split; intros [].
     - rewrite (proj2 (Nat.eqb_neq (c_my cf) d) Hpd). cbn. split; intros []. }
   destruct Hmid as [M1 M2].
-  split; intro Hin; repeat (apply in_app_or in Hin; destruct Hin as [Hin|Hin]); auto.
+  split; intro Hin.
+  - apply in_app_or in Hin as [Hin|Hin]; [exact (A1 Hin)|].
+    apply in_app_or in Hin as [Hin|Hin]; [exact (M1 Hin)|exact (B1 Hin)].
+  - apply in_app_or in Hin as [Hin|Hin]; [exact (A2 Hin)|].
+    apply in_app_or in Hin as [Hin|Hin]; [exact (M2 Hin)|exact (B2 Hin)].
 Qed.
 
 End Ev.
+
+(* ---------------------------------------------------------------------- *)
+(* FlagMisbehavior(dealer): when can it be called                          *)
+(* ---------------------------------------------------------------------- *)
+Section Flag.
+Variable cf : cfg.
+Variable d : nat.
+Let p := c_my cf.
+
+Definition own_recv (q : qinst) : bool :=
+  match q_compl q p with Some c => c_recv c | None => false end.
+
+Lemma bc_flag q q' ev : build_complaint cf d q = Some (q', ev) -> In (EvFlag d) ev ->
+  q_disq q' = true \/ own_recv q' = true.
+Proof.
+  unfold build_complaint, own_recv. fold p. intros H Hin.
+  repeat brk_hyp H; inv_pairs; cbn in *; unfold upd; rewrite ?Nat.eqb_refl; cbn; auto;
+  try (repeat (apply in_app_or in Hin; cbn in Hin); repeat match goal with H : _ \/ _ |- _ => destruct H end; try contradiction; try discriminate).
+Qed.
+
+Ltac flfin :=
+  try match goal with
+  | Hin : In _ _ |- _ => cbn in Hin; repeat (apply in_app_or in Hin; cbn in Hin)
+  end;
+  repeat match goal with H : _ \/ _ |- _ => destruct H end; try contradiction; try discriminate;
+  repeat match goal with H : EvFlag _ = EvFlag _ |- _ => inversion H; subst; clear H end.
+
+Ltac bcf := try match goal with
+  | H : build_complaint _ _ _ = Some (?q', ?l), Hin : In (EvFlag d) (?l ++ _) |- _ =>
+      apply in_app_or in Hin; destruct Hin as [Hin|Hin]; [pose proof (bc_flag _ _ _ H Hin)|cbn in Hin]
+  | H : build_complaint _ _ _ = Some (?q', ?l), Hin : In (EvFlag d) ?l |- _ => pose proof (bc_flag _ _ _ H Hin)
+  end.
+
+Lemma read_star_false z old z0 b : read_star z old = (b, z0) -> negb b = true -> readable z = false.
+Proof.
+  unfold read_star, readable. destruct ((0 <? z) && (z <? r)); intros H Hb; [inversion H; subst; discriminate Hb|reflexivity].
+Qed.
+
+Definition share_malformed (m : msg) : Prop :=
+  match m with MShare (SVal z) => readable z = false | _ => True end.
+
+Lemma share_flag o m q q' ev : q_receive_share cf d o m q = Some (q', ev) -> In (EvFlag d) ev ->
+  o = d /\ (q_st q = true \/ v_xrecv (q_v q) = true \/ share_malformed m \/ q_disq q' = true \/ own_recv q' = true).
+Proof.
+  unfold q_receive_share. intros H Hin.
+  destruct (Nat.eqb_spec o d) as [->|Ho]; cbn [negb] in H; [|inv_pairs; contradiction].
+  split; [reflexivity|].
+  repeat brk_hyp H; inv_pairs; auto; bcf; flfin; cbn; auto 6;
+  try (right; right; left; eapply read_star_false; eauto).
+Qed.
+
+Lemma vector_flag o vb q q' ev : q_receive_vector cf d o vb q = Some (q', ev) -> In (EvFlag d) ev ->
+  o = d /\ (q_st q = true \/ v_vArecv (q_v q) = true \/ q_disq q' = true \/ own_recv q' = true).
+Proof.
+  unfold q_receive_vector. intros H Hin.
+  destruct (Nat.eqb_spec o d) as [->|Ho]; cbn [negb] in H; [|inv_pairs; contradiction].
+  split; [reflexivity|].
+  repeat brk_hyp H; inv_pairs; auto; bcf; flfin; cbn; auto 6.
+Qed.
+
+Definition answer_dup (ab : abody) (q : qinst) : Prop :=
+  match ab with
+  | AVal b z => match q_compl q (Z.to_nat b) with Some k => c_ans k = true | None => False end
+  | ABadLen => False
+  end.
+
+Lemma answer_flag o ab q q' ev : q_receive_answer cf d o ab q = Some (q', ev) -> In (EvFlag d) ev ->
+  o = d /\ answer_dup ab q.
+Proof.
+  unfold q_receive_answer, answer_dup. intros H Hin.
+  destruct (Nat.eqb_spec o d) as [->|Ho]; cbn [negb] in H; [|inv_pairs; contradiction].
+  split; [reflexivity|].
+  repeat brk_hyp H; inv_pairs; flfin; auto.
+Qed.
+
+Lemma complaint_flag o cb q q' ev : q_receive_complaint cf d o cb q = Some (q', ev) -> In (EvFlag d) ev ->
+  o = d /\ q_ct q = true.
+Proof.
+  unfold q_receive_complaint, build_answer. intros H Hin.
+  repeat brk_hyp H; inv_pairs; flfin; auto;
+  try match goal with H : (?x =? ?x)%nat = false |- _ => rewrite Nat.eqb_refl in H; discriminate H end.
+Qed.
+
+(* the possible causes of a FlagMisbehavior(dealer) callback in one step *)
+Definition flag_cause (q q' : qinst) (x : item) : Prop :=
+  match x with
+  | IP o m => o = d /\ (q_st q = true \/ v_xrecv (q_v q) = true \/ share_malformed m \/ q_disq q' = true \/ own_recv q' = true)
+  | IB o (MVec vb) => o = d /\ (q_st q = true \/ v_vArecv (q_v q) = true \/ q_disq q' = true \/ own_recv q' = true)
+  | IB o (MAnswer ab) => o = d /\ answer_dup ab q
+  | IB o (MComplaint cb) => o = d /\ q_ct q = true
+  | IB _ _ => False
+  | ITimeout => q_disq q' = true \/ own_recv q' = true
+  | IForce _ => False
+  end.
+
+Theorem istep_flag_cause q x :
+  In (EvFlag d) (snd (istep cf d q x)) -> flag_cause q (fst (istep cf d q x)) x.
+Proof.
+  unfold istep. destruct x as [o m|o m| |j]; cbn [call_of qual_step qs_run qs_q flag_cause].
+  - unfold q_broadcast. cbn [negb]. rewrite Nat2Z.id.
+    destruct (in_range cf (Z.of_nat o)); cbn; [|contradiction].
+    destruct (Nat.eqb (c_my cf) o); cbn; [contradiction|].
+    destruct (q_disq q) eqn:Hq; cbn; [contradiction|].
+    destruct m as [|sb|vb|cb|ab|tg]; cbn; try (intros [E|[]]; discriminate E).
+    + destruct (q_receive_vector cf d o vb q) as [[q' ev]|] eqn:E; cbn; [eapply vector_flag; eauto|contradiction].
+    + destruct (q_receive_complaint cf d o cb q) as [[q' ev]|] eqn:E; cbn; [eapply complaint_flag; eauto|contradiction].
+    + destruct (q_receive_answer cf d o ab q) as [[q' ev]|] eqn:E; cbn; [eapply answer_flag; eauto|contradiction].
+  - unfold q_private. cbn [negb]. rewrite Nat2Z.id.
+    destruct (in_range cf (Z.of_nat o)); cbn; [|contradiction].
+    destruct (Nat.eqb (c_my cf) o); cbn; [contradiction|].
+    destruct (q_disq q); cbn; [contradiction|].
+    destruct (q_receive_share cf d o m q) as [[q' ev]|] eqn:E; cbn; [eapply share_flag; eauto|contradiction].
+  - unfold q_next_timeout. cbn [negb]. destruct (q_ct q); cbn; [contradiction|].
+    destruct (q_disq q); cbn; [destruct (negb (q_st q)); cbn; contradiction|].
+    destruct (negb (q_st q)); cbn.
+    + unfold set_shares_timeout. cbn [qset_st q_v]. destruct (v_vArecv (q_v q)); cbn; [|intros [E|[]]; discriminate E].
+      destruct (v_xrecv (q_v q)); cbn; [contradiction|].
+      destruct (build_complaint cf d (qset_st q true)) as [[q' ev]|] eqn:E; cbn; [eapply bc_flag; eauto|contradiction].
+    + unfold set_complaints_timeout. destruct (c_t cf <? ncompl cf (q_compl (qset_ct q true)))%nat; cbn;
+        [intros [E|[]]; discriminate E|contradiction].
+  - unfold q_force. cbn [negb]. destruct (in_range cf (Z.of_nat j)); cbn; [|contradiction].
+    destruct (Nat.eqb (Z.to_nat (Z.of_nat j)) d); cbn; contradiction.
+Qed.
+
+Lemma irun_events_split : forall L q e, In e (irun_events cf d q L) ->
+  exists L1 x L2, L = L1 ++ x :: L2 /\ In e (snd (istep cf d (irun cf d q L1) x)).
+Proof.
+  induction L as [|x L IH]; intros q e Hin; [contradiction|].
+  cbn [irun_events] in Hin. apply in_app_or in Hin as [Hin|Hin].
+  - exists [], x, L. split; [reflexivity|exact Hin].
+  - destruct (IH _ _ Hin) as (L1 & y & L2 & -> & Hy). exists (x :: L1), y, L2. split; [reflexivity|].
+    rewrite irun_cons. exact Hy.
+Qed.
+
+End Flag.
